@@ -721,12 +721,14 @@ class Orchestration(Harness):
     prop, ob = PROP, 'O3'
     width = 64
 
-    def __init__(self, skip, client, policy, end='close'):
-        self.skip, self.client, self.policy, self.end = skip, client, policy, end
-        self.name = 'orchestration-%s-%s-%s%s' % ('skip' if skip else 'rate', 'client' if client else 'server', 'policy' if policy else 'standard', '' if end == 'close' else '-' + end)
+    def __init__(self, skip, client, policy, end='close', naddr=1):
+        # naddr: the target's name resolves to that many addresses, all of which answer (dual stack, round-robin DNS): the bounds do not grow with it
+        self.skip, self.client, self.policy, self.end, self.naddr = skip, client, policy, end, naddr
+        self.name = 'orchestration-%s-%s-%s%s%s' % ('skip' if skip else 'rate', 'client' if client else 'server', 'policy' if policy else 'standard', '' if end == 'close' else '-' + end,
+                                                    '' if naddr == 1 else '-%daddrs' % naddr)
 
     def params(self):
-        return {'skip': self.skip, 'client': self.client, 'policy': self.policy, 'end': self.end}
+        return {'skip': self.skip, 'client': self.client, 'policy': self.policy, 'end': self.end, 'naddr': self.naddr}
 
     def inputs(self):
         return {'x': zx.fresh_bytes('x', 1)}
@@ -743,6 +745,11 @@ class Orchestration(Harness):
             # every connection after the first one is accepted and then reset / closed / left silent before any banner (connection throttling, an IPS)
             conns = conns[:1]
             srv_net = CappedNet(conns, default_end=self.end.split('-')[0])
+        if self.naddr > 1:
+            import socket as _s
+            infos = [(_s.AF_INET, _s.SOCK_STREAM, 6, '', ('192.0.2.%d' % (i + 1), 22)) if i % 2 == 0 else (_s.AF_INET6, _s.SOCK_STREAM, 6, '', ('2001:db8::%d' % (i + 1), 22, 0, 0))
+                     for i in range(self.naddr)]
+            srv_net = CappedNet(conns, addrinfo=infos)
         calls = []
         D = M.dheat.DHEat
         o_rate, o_run, o_init = D.dh_rate_test, D.run, D.__init__
@@ -913,6 +920,8 @@ def tasks(tier):
     T.append(Orchestration(True, False, True, 'reset'))
     for e in ('reset-before-banner', 'close-before-banner', 'timeout-before-banner'):
         T.append(Orchestration(True, False, False, e))
+    T.append(Orchestration(True, False, False, 'close', 2))
+    T.append(Orchestration(True, False, True, 'close', 3))
     for ssh1, ssh2 in ((True, True), (True, False), (False, True)):
         T.append(Fallback(ssh1, ssh2, 3 if q else 5))
     for n in range(C_SHIP + 1):
@@ -951,7 +960,7 @@ def harness_by_name(name, params):
     if k == 'fallback':
         return Fallback(p['ssh1'], p['ssh2'], p['n'])
     if k == 'orchestration':
-        return Orchestration(p['skip'], p['client'], p['policy'], p.get('end', 'close'))
+        return Orchestration(p['skip'], p['client'], p['policy'], p.get('end', 'close'), p.get('naddr', 1))
     raise KeyError(name)
 
 
